@@ -40,6 +40,12 @@ class PathResolver:
         Returns:
             Path relative to project root, or original path if outside project
         """
+        # A path spelled relative to another working directory, or reached through a
+        # symlink, still names a file of the project: judge it by its place in the project.
+        try:
+            return file_path.resolve().relative_to(self.project_root.resolve())
+        except (ValueError, OSError):
+            pass
         try:
             if file_path.is_absolute():
                 return file_path.relative_to(self.project_root)
